@@ -54,7 +54,11 @@ func (m *Mutex) Unlock() {
 		m.real.Unlock()
 		return
 	}
-	s.Enter()
+	if s.Cfg.UnlockYields {
+		s.Yield("unlock", fmt.Sprintf("m%d", s.ObjID(m)))
+	} else {
+		s.Enter()
+	}
 	if !m.locked {
 		s.Fail(simrt.FailFatal, "sync: unlock of unlocked mutex")
 	}
@@ -104,7 +108,11 @@ func (m *RWMutex) Unlock() {
 		m.real.Unlock()
 		return
 	}
-	s.Enter()
+	if s.Cfg.UnlockYields {
+		s.Yield("unlock", fmt.Sprintf("rw%d", s.ObjID(m)))
+	} else {
+		s.Enter()
+	}
 	if !m.writer {
 		s.Fail(simrt.FailFatal, "sync: Unlock of unlocked RWMutex")
 	}
@@ -133,7 +141,11 @@ func (m *RWMutex) RUnlock() {
 		m.real.RUnlock()
 		return
 	}
-	s.Enter()
+	if s.Cfg.UnlockYields {
+		s.Yield("unlock", fmt.Sprintf("rw%d", s.ObjID(m)))
+	} else {
+		s.Enter()
+	}
 	if m.readers <= 0 {
 		s.Fail(simrt.FailFatal, "sync: RUnlock of unlocked RWMutex")
 	}
